@@ -153,8 +153,8 @@ package runner
 //@   ensures  looks-only-forward: n_wload >= old(n_wload)
 //@   callsite check: assert checks-this-dependency: $1 == t
 //@   modifies n_wload
-//@   loop 0: invariant n_wload >= old(n_wload)
-//@   loop 0: step no-dependency-skipped: when true ensures err == nil && n_wload > old(n_wload)
+//@   loop over deps: invariant n_wload >= old(n_wload)
+//@   loop over deps: step no-dependency-skipped: when true ensures err == nil && n_wload > old(n_wload)
 
 //@ func (*runner.engine).check
 //@   requires e != nil && e.root != nil && dep != nil
@@ -178,13 +178,13 @@ package runner
 //@   requires !pub[e.root]
 //@   ensures  len(result) == len(labels)
 //@   modifies heap
-//@   loop 0: invariant held == 0 && claimed == old(claimed) && len(targets) == len(labels)
-//@   loop 0: invariant forall j: int :: 0 <= j && j <= rangeindex ==> (targets[j] != nil && targets[j].status >= 1)
-//@   loop 1: invariant held == 0 && claimed == old(claimed)
-//@   loop 2: invariant held == 0 && claimed == old(claimed)
-//@   loop 2: invariant forall j: int :: 0 <= j && j < len(targets) ==> (targets[j] != nil && targets[j].status >= 1)
-//@   loop 2: invariant len(results) == len(targets)
-//@   loop 2: invariant outcome: forall j: int :: 0 <= j && j <= rangeindex ==> (targets[j].status >= 2 && results[j].Error == targets[j].err && results[j].Target == targets[j].target)
+//@   loop over labels: invariant held == 0 && claimed == old(claimed) && len(targets) == len(labels)
+//@   loop over labels: invariant forall j: int :: 0 <= j && j <= rangeindex ==> (targets[j] != nil && targets[j].status >= 1)
+//@   loop over make(): invariant held == 0 && claimed == old(claimed)
+//@   loop over targets: invariant held == 0 && claimed == old(claimed)
+//@   loop over targets: invariant forall j: int :: 0 <= j && j < len(targets) ==> (targets[j] != nil && targets[j].status >= 1)
+//@   loop over targets: invariant len(results) == len(targets)
+//@   loop over targets: invariant outcome: forall j: int :: 0 <= j && j <= rangeindex ==> (targets[j].status >= 2 && results[j].Error == targets[j].err && results[j].Target == targets[j].target)
 
 //   n_runs - completed calls of runner.Run by this goroutine
 //@ ghost n_runs int threadlocal = 0
